@@ -618,7 +618,7 @@ def run(ctx):
         fhist["skipped"] = len(fcases) - len(usable)
         fhist["skipped_why"] = sorted({str(fres[i].get("skipped") or fres[i].get("error") or "environment / scenario incomplete")
                                        for i in range(len(fcases)) if i not in usable})[:4]
-        if fcases and not usable:
+        if fcases and not usable and any(w != "timeout" for w in fhist["skipped_why"]):  # a timeout is load, not a finding
             errors.append("terminal-found scenarios: no environment could be realised: " + "; ".join(fhist["skipped_why"]))
         for i in usable:
             c, r = fcases[i], fres[i]
